@@ -46,7 +46,8 @@ FUNCS = {
     'tcpcl.session:ContactHandler._add_queue_item': dict(
         params={'item': 'Ref[BundleItem]'}, returns='Int', props=['C01', 'C18'],
         requires=TX_REQ + [
-            ('new_item', 'item.transfer_id is None and item.file is not None and item_unqueued(self, item)'),
+            ('new_item', 'item.transfer_id is None and item.file is not None and item.ack_length == 0 and '
+                         'item.total_length is None and item_unqueued(self, item)'),
             ('file_not_rx', 'implies(self._rx_tmp is not None, not eqv(item.file, self._rx_tmp.file))'),
         ],
         modifies=['ContactHandler._tx_next_id', 'ContactHandler._tx_pend_start', 'ContactHandler._tx_map',
